@@ -37,6 +37,8 @@ REQUIRED_CLASSES = {
 def run_growth_trace(ctx, trace_path, tables, strict=False, allow_violation=False, timeout=2400):
     d = ctx.sub("gtables")
     tp = os.path.join(d, "tables.json")
+    tables = dict(tables)
+    tables.setdefault("ucamel", {"dataquery": "Dataquery"})
     json.dump(tables, open(tp, "w"))
     r = ctx.run_tlc("GrowthTrace", "GrowthTrace.cfg", workers=1, timeout=timeout,
                     files={"trace.ndjson": trace_path, "tables.json": tp},
@@ -174,7 +176,8 @@ def selftest(ctx, records, S):
         elif isinstance(v, str) and v:
             names.add(v)
     collect(rec)
-    tb = {"fold": {n: n.lower() for n in names} or {"p": "p"}, "singular": {"tags": "tag"}, "lcamel": {"Inner": "inner"}, "schemas": [S]}
+    tb = {"fold": {n: n.lower() for n in names} or {"p": "p"}, "singular": {"tags": "tag"}, "lcamel": {"Inner": "inner"},
+          "ucamel": {"dataquery": "Dataquery"}, "schemas": [S]}
     for name, r in (("good", rec), ("bad", bad)):
         t = os.path.join(d, name + ".ndjson")
         open(t, "w").write(json.dumps(r) + "\n")
